@@ -2179,6 +2179,164 @@ let of_N = function
       | XH -> Some X02)
    | XH -> Some X01)
 
+(** val w : n **)
+
+let w =
+  Npos (XO (XO (XO (XO (XO (XO (XO (XO (XO (XO (XO (XO (XO (XO (XO (XO (XO
+    (XO (XO (XO (XO (XO (XO (XO (XO (XO (XO (XO (XO (XO (XO (XO (XO (XO (XO
+    (XO (XO (XO (XO (XO (XO (XO (XO (XO (XO (XO (XO (XO (XO (XO (XO (XO (XO
+    (XO (XO (XO (XO (XO (XO (XO (XO (XO (XO (XO
+    XH))))))))))))))))))))))))))))))))))))))))))))))))))))))))))))))))
+
+(** val w64 : n -> n **)
+
+let w64 x =
+  N.modulo x w
+
+type fsSuper = { size : n; nLog : n; nBlockBitmap : n; nInodeBitmap : 
+                 n; nInodeBlk : n; maxaddr : n }
+
+(** val nBlockBitmap : fsSuper -> n **)
+
+let nBlockBitmap f =
+  f.nBlockBitmap
+
+(** val mkFsSuper : n -> fsSuper **)
+
+let mkFsSuper sz =
+  let nblockbitmap =
+    w64
+      (N.add
+        (N.div sz (Npos (XO (XO (XO (XO (XO (XO (XO (XO (XO (XO (XO (XO (XO
+          (XO (XO XH))))))))))))))))) (Npos XH))
+  in
+  { size = sz; nLog = (Npos (XI (XO (XO (XO (XO (XO (XO (XO (XO XH))))))))));
+  nBlockBitmap = nblockbitmap; nInodeBitmap = (Npos XH); nInodeBlk = (Npos
+  (XO (XO (XO (XO (XO (XO (XO (XO (XO (XO XH))))))))))); maxaddr = sz }
+
+(** val maxBnum : fsSuper -> n **)
+
+let maxBnum fs =
+  fs.maxaddr
+
+(** val bitmapBlockStart : fsSuper -> n **)
+
+let bitmapBlockStart fs =
+  fs.nLog
+
+(** val bitmapInodeStart : fsSuper -> n **)
+
+let bitmapInodeStart fs =
+  w64 (N.add (bitmapBlockStart fs) fs.nBlockBitmap)
+
+(** val inodeStart : fsSuper -> n **)
+
+let inodeStart fs =
+  w64 (N.add (bitmapInodeStart fs) fs.nInodeBitmap)
+
+(** val dataStart : fsSuper -> n **)
+
+let dataStart fs =
+  w64 (N.add (inodeStart fs) fs.nInodeBlk)
+
+(** val nInode : fsSuper -> n **)
+
+let nInode fs =
+  w64 (N.mul fs.nInodeBlk (Npos (XO (XO (XO (XO (XO XH)))))))
+
+(** val inum2Addr : fsSuper -> n -> n * n **)
+
+let inum2Addr fs inum0 =
+  ((w64
+     (N.add (inodeStart fs) (N.div inum0 (Npos (XO (XO (XO (XO (XO XH))))))))),
+    (w64
+      (N.mul
+        (w64
+          (N.mul (N.modulo inum0 (Npos (XO (XO (XO (XO (XO XH))))))) (Npos
+            (XO (XO (XO (XO (XO (XO (XO XH)))))))))) (Npos (XO (XO (XO XH)))))))
+
+(** val nBITBLOCK : n **)
+
+let nBITBLOCK =
+  Npos (XO (XO (XO (XO (XO (XO (XO (XO (XO (XO (XO (XO (XO (XO (XO
+    XH)))))))))))))))
+
+(** val lOGSIZE : n **)
+
+let lOGSIZE =
+  Npos (XI (XO (XO (XO (XO (XO (XO (XO (XO XH)))))))))
+
+(** val markAlloc_sane : fsSuper -> bool **)
+
+let markAlloc_sane fs =
+  negb
+    ((||)
+      ((||) (N.leb nBITBLOCK (dataStart fs))
+        (N.leb (w64 (N.mul nBITBLOCK fs.nBlockBitmap)) (maxBnum fs)))
+      (N.ltb (maxBnum fs) (dataStart fs)))
+
+(** val mk_bit : fsSuper -> n -> bool **)
+
+let mk_bit fs b =
+  let n0 = dataStart fs in
+  let m = maxBnum fs in
+  let last = N.div m nBITBLOCK in
+  let blk = N.div b nBITBLOCK in
+  let off = N.modulo b nBITBLOCK in
+  if N.eqb last N0
+  then (&&) (N.eqb blk N0)
+         ((||) (N.ltb off n0) (N.leb (N.modulo m nBITBLOCK) off))
+  else (||) ((&&) (N.eqb blk N0) (N.ltb off n0))
+         ((&&) (N.eqb blk last) (N.leb (N.modulo m nBITBLOCK) off))
+
+(** val mk_ibit : n -> bool **)
+
+let mk_ibit i =
+  N.ltb i (Npos (XO XH))
+
+(** val fresh_free_blocks : fsSuper -> n **)
+
+let fresh_free_blocks fs =
+  N.sub (maxBnum fs) (dataStart fs)
+
+(** val fresh_free_inodes : fsSuper -> n **)
+
+let fresh_free_inodes fs =
+  N.sub (nInode fs) (Npos (XO XH))
+
+(** val layout_ok_b : n -> bool **)
+
+let layout_ok_b sz =
+  let fs = mkFsSuper sz in
+  (||) (negb (markAlloc_sane fs))
+    ((&&)
+      ((&&)
+        ((&&)
+          ((&&)
+            ((&&)
+              ((&&)
+                ((&&) (N.eqb (bitmapBlockStart fs) lOGSIZE)
+                  (N.eqb (bitmapInodeStart fs)
+                    (N.add (bitmapBlockStart fs) fs.nBlockBitmap)))
+                (N.eqb (inodeStart fs)
+                  (N.add (bitmapInodeStart fs) (Npos XH))))
+              (N.eqb (dataStart fs)
+                (N.add (inodeStart fs) (Npos (XO (XO (XO (XO (XO (XO (XO (XO
+                  (XO (XO XH)))))))))))))) (N.leb (dataStart fs) sz))
+          (N.eqb (nInode fs) (Npos (XO (XO (XO (XO (XO (XO (XO (XO (XO (XO
+            (XO (XO (XO (XO (XO XH))))))))))))))))))
+        (N.ltb sz (N.mul fs.nBlockBitmap nBITBLOCK)))
+      (N.leb (N.mul (N.sub fs.nBlockBitmap (Npos XH)) nBITBLOCK) sz))
+
+(** val bitmap_ok_b : n -> n -> bool **)
+
+let bitmap_ok_b sz b =
+  let fs = mkFsSuper sz in
+  (||)
+    ((||) (negb (markAlloc_sane fs))
+      (negb (N.ltb b (N.mul fs.nBlockBitmap nBITBLOCK))))
+    (eqb (mk_bit fs b) ((||) (N.ltb b (dataStart fs)) (N.leb sz b)))
+
 type decision = bool
 
 (** val decide : decision -> bool **)
@@ -2310,11 +2468,11 @@ type ('a, 'c) elements = 'c -> 'a list
 let elements0 elements1 =
   elements1
 
-type 'c size = 'c -> nat
+type 'c size0 = 'c -> nat
 
-(** val size0 : 'a1 size -> 'a1 -> nat **)
+(** val size1 : 'a1 size0 -> 'a1 -> nat **)
 
-let size0 size2 =
+let size1 size2 =
   size2
 
 (** val true_dec : decision **)
@@ -2662,7 +2820,7 @@ let n_countable =
     then Some N0
     else Some (Npos (Coq_Pos.pred p))) }
 
-(** val set_size : ('a1, 'a2) elements -> 'a2 size **)
+(** val set_size : ('a1, 'a2) elements -> 'a2 size0 **)
 
 let set_size h =
   compose length (elements0 h)
@@ -2709,7 +2867,7 @@ let map_singleton h h0 i x =
 let list_to_map h h0 =
   fold_right (fun p -> insert0 h (fst p) (snd p)) (empty0 h0)
 
-(** val map_size : ('a1, 'a2, 'a3) finMapToList -> 'a3 size **)
+(** val map_size : ('a1, 'a2, 'a3) finMapToList -> 'a3 size0 **)
 
 let map_size h m =
   length (map_to_list h m)
@@ -4038,73 +4196,6 @@ let init_afs unst =
         (prod_countable n_eq_dec n_countable n_eq_dec n_countable)) (rOOT,
       (Npos XH))); unstable_opt = unst }
 
-(** val w : n **)
-
-let w =
-  Npos (XO (XO (XO (XO (XO (XO (XO (XO (XO (XO (XO (XO (XO (XO (XO (XO (XO
-    (XO (XO (XO (XO (XO (XO (XO (XO (XO (XO (XO (XO (XO (XO (XO (XO (XO (XO
-    (XO (XO (XO (XO (XO (XO (XO (XO (XO (XO (XO (XO (XO (XO (XO (XO (XO (XO
-    (XO (XO (XO (XO (XO (XO (XO (XO (XO (XO (XO
-    XH))))))))))))))))))))))))))))))))))))))))))))))))))))))))))))))))
-
-(** val w64 : n -> n **)
-
-let w64 x =
-  N.modulo x w
-
-type fsSuper = { size1 : n; nLog : n; nBlockBitmap : n; nInodeBitmap : 
-                 n; nInodeBlk : n; maxaddr : n }
-
-(** val mkFsSuper : n -> fsSuper **)
-
-let mkFsSuper sz =
-  let nblockbitmap =
-    w64
-      (N.add
-        (N.div sz (Npos (XO (XO (XO (XO (XO (XO (XO (XO (XO (XO (XO (XO (XO
-          (XO (XO XH))))))))))))))))) (Npos XH))
-  in
-  { size1 = sz; nLog = (Npos (XI (XO (XO (XO (XO (XO (XO (XO (XO
-  XH)))))))))); nBlockBitmap = nblockbitmap; nInodeBitmap = (Npos XH);
-  nInodeBlk = (Npos (XO (XO (XO (XO (XO (XO (XO (XO (XO (XO XH)))))))))));
-  maxaddr = sz }
-
-(** val bitmapBlockStart : fsSuper -> n **)
-
-let bitmapBlockStart fs =
-  fs.nLog
-
-(** val bitmapInodeStart : fsSuper -> n **)
-
-let bitmapInodeStart fs =
-  w64 (N.add (bitmapBlockStart fs) fs.nBlockBitmap)
-
-(** val inodeStart : fsSuper -> n **)
-
-let inodeStart fs =
-  w64 (N.add (bitmapInodeStart fs) fs.nInodeBitmap)
-
-(** val dataStart : fsSuper -> n **)
-
-let dataStart fs =
-  w64 (N.add (inodeStart fs) fs.nInodeBlk)
-
-(** val nInode : fsSuper -> n **)
-
-let nInode fs =
-  w64 (N.mul fs.nInodeBlk (Npos (XO (XO (XO (XO (XO XH)))))))
-
-(** val inum2Addr : fsSuper -> n -> n * n **)
-
-let inum2Addr fs inum0 =
-  ((w64
-     (N.add (inodeStart fs) (N.div inum0 (Npos (XO (XO (XO (XO (XO XH))))))))),
-    (w64
-      (N.mul
-        (w64
-          (N.mul (N.modulo inum0 (Npos (XO (XO (XO (XO (XO XH))))))) (Npos
-            (XO (XO (XO (XO (XO (XO (XO XH)))))))))) (Npos (XO (XO (XO XH)))))))
-
 type disk = (n, bytes) gmap
 
 (** val rd : disk -> n -> bytes **)
@@ -4644,7 +4735,7 @@ let abs_disk name_max maxfilesize sz quiescent d =
   let ownedset = gs_of_list n_eq_dec n_countable owned in
   let derr =
     if Nat.eqb (length owned)
-         (size0 (set_size (gset_elements n_eq_dec n_countable)) ownedset)
+         (size1 (set_size (gset_elements n_eq_dec n_countable)) ownedset)
     then []
     else let rec dups xs seen =
            match xs with
@@ -4863,7 +4954,7 @@ let dir_agree s di cookie ents eof =
       (if (&&) (N.eqb cookie N0) eof
        then Nat.eqb (length ents)
               (add
-                (size0
+                (size1
                   (map_size
                     (gmap_to_list (list_eq_dec0 byte_eq_dec0)
                       (list_countable byte_eq_dec0 byte_countable))) d.o_ents)
